@@ -223,7 +223,10 @@ theorem shape_step {b : QBeh} {c c' : QCfg} (h : Shape none c.stack) (hs : step 
   | filtFalse hst =>
     rw [hst] at h
     exact ⟨trivial, h.2.2.mono (fun k _ => trivial) (fun hp => hp.elim)⟩
-  | iter hst => rw [hst] at h; exact nextListener_shape b c _ _ _ _ (.of_iter h.2.2)
+  | iter hst _ => rw [hst] at h; exact nextListener_shape b c _ _ _ _ (.of_iter h.2.2)
+  | iterStop hst _ =>
+    rw [hst] at h
+    exact ⟨trivial, h.2.2.mono (fun k _ => trivial) (fun hp => hp.elim)⟩
   | predDispatch hst hev hm =>
     rw [hst] at h
     exact nextFilter_shape b c _ _ _ _
